@@ -7,7 +7,7 @@ META = {
              '(L2) bounded progress: run_tasks returns or raises within B = 30 s of a workload whose tasks take < 0.1 '
              's; when B expires the verdict is decided logically: no worker process of the run alive and every '
              'started task ended => violated, otherwise inconclusive. Workload: random DAGs x failing subsets with '
-             'fault kinds {exception, unpicklable exception, SystemExit, BaseException subclass, os._exit, SIGKILL of '
+             'fault kinds {exception, unpicklable exception, SystemExit, BaseException subclass, os._exit(3), os._exit(0), SIGKILL of '
              'self} x continue_on_failure x {sim (thousands of schedules with planned deaths), serial, fork, spawn} '
              'x max_workers {1,2,3} incl. max_workers=1 with max_parallel=1 types x default and disabled '
              'progress/monitor displays, plus external SIGKILL of worker processes through pidfds taken at launch, at '
